@@ -111,6 +111,11 @@ def join(a, b, la=None, lb=None):
     if a.eop is not None and b.eop is not None and a.eop != b.eop:
         eop = None
     ne = frozenset(c for c in (a.ne | b.ne) if (c in a.ne or not (a.lo <= c <= a.hi)) and (c in b.ne or not (b.lo <= c <= b.hi)))
+    # the few integers between two disjoint operands stay excluded ({-1} joined with [1,N] is not 0)
+    lo_, hi_ = (a, b) if a.hi < b.lo else ((b, a) if b.hi < a.lo else (None, None))
+    if lo_ is not None and lo_.hi not in (INF, -INF) and hi_.lo not in (INF, -INF) and 0 < hi_.lo - lo_.hi - 1 <= 3 \
+            and float(lo_.hi).is_integer() and float(hi_.lo).is_integer() and len(ne) < 4:
+        ne = ne | frozenset(range(int(lo_.hi) + 1, int(hi_.lo)))
     return V(min(a.lo, b.lo), max(a.hi, b.hi), lt, le, eop, max(a.rd, b.rd),
              a.nn if a.nn == b.nn else None, a.tag if a.tag == b.tag else None, ne)
 
@@ -169,6 +174,121 @@ def writers_of(P):
             E = P._effects = k3.Effects(P)
         _WR[id(P)] = k2.writers_through_arg(P, E)
     return _WR[id(P)]
+
+
+def _syntactic_written_fields(P, gk, i, depth=0):
+    """first-level field names of the record behind parameter i that function gk stores to, when every store in it can be
+    attributed: direct member stores, stores through a single-definition pointer local that points into a field of the
+    parameter (`int *sub=info->class_subbook[j]`), and the same for callees it hands the parameter to.  None = unknown"""
+    cache = P.__dict__.setdefault('_synwf', {})
+    if (gk, i) in cache:
+        return cache[(gk, i)]
+    cache[(gk, i)] = None
+    G = P.fn.get(gk)
+    if G is None or G.entry is None or depth > 3 or i >= len(G.params):
+        return None
+    pid = G.params[i]['id']
+    rec = G.params[i].get('record')
+    # another pointer parameter of the same record type could alias the object
+    if any(j != i and p_.get('record') == rec and p_['t'].rstrip().endswith('*') for j, p_ in enumerate(G.params)):
+        return None
+    from rules import common as _common
+    defs = _common.single_defs(G)
+
+    def root_field(e, seen=0):
+        """(is rooted at the parameter, first-level field) of an lvalue / pointer expression"""
+        if seen > 6:
+            return None, None
+        nd = G.ex[G.strip_casts(e)]
+        k = nd['k']
+        if k == 'ref':
+            if nd['decl'].get('id') == pid:
+                return True, None
+            d = defs.get(nd['decl'].get('id'))
+            if d is not None and str(nd.get('t', '')).rstrip().endswith('*'):
+                return root_field(d, seen + 1)
+            return False, None
+        if k == 'member':
+            r, f = root_field(nd['c'][0], seen + 1)
+            if r:
+                return True, (f if f is not None else nd['field'])
+            return r, None
+        if k == 'sub' or (k == 'un' and nd['op'] in ('*', '&')) or (k == 'bin' and nd['op'] in ('+', '-')):
+            return root_field(nd['c'][0], seen + 1)
+        return False, None
+    out = set()
+    for n in G.pos:
+        nd = G.ex[n]
+        tgt = None
+        if nd['k'] == 'assign':
+            tgt = nd['c'][0]
+        elif nd['k'] == 'un' and nd['op'] in ('pre++', 'pre--', 'post++', 'post--'):
+            tgt = nd['c'][0]
+        if tgt is not None:
+            t = G.ex[G.strip_casts(tgt)]
+            if t['k'] == 'ref':
+                continue                      # a local
+            r, f = root_field(tgt)
+            if r is None:
+                return None
+            if r:
+                if f is None:
+                    return None
+                out.add(f)
+        if nd['k'] == 'call':
+            for j, a in enumerate(nd.get('c', [])):
+                if not str(G.ex[a].get('t', '')).rstrip().endswith(('*', ']')):
+                    continue
+                r, f = root_field(a)
+                if not r:
+                    continue
+                if f is not None:
+                    # a pointer into one field is handed on: that field may be written
+                    out.add(f)
+                    continue
+                tg = P.call_targets(G, n)
+                for t_ in tg:
+                    if t_.startswith(('ext:', 'cb:', 'unk:')):
+                        return None
+                    sub = _syntactic_written_fields(P, t_, j, depth + 1)
+                    if sub is None:
+                        return None
+                    out |= sub
+    cache[(gk, i)] = out
+    return out
+
+
+def _predicate_body(G):
+    """the expression a helper returns when its body is one `return <comparisons over parameters and constants>;`"""
+    c = getattr(G, '_predbody', 0)
+    if c != 0:
+        return c
+    out = None
+    body = G.d.get('body')
+    st = body
+    while st and st.get('k') == 'seq' and len(st.get('c', [])) == 1:
+        st = st['c'][0]
+    if st and st.get('k') == 'ret' and G.params and all(int_type_range(p['t']) for p in G.params):
+        rn = G.ex[st['e']]
+        if rn.get('c'):
+            e = rn['c'][0]
+            ok = True
+            for q in G.walk(e):
+                nd = G.ex[q]
+                if nd['k'] in ('int', 'cast'):
+                    continue
+                if nd['k'] == 'ref' and nd['decl'].get('kind') == 'param':
+                    continue
+                if nd['k'] == 'bin' and nd['op'] in ('&&', '||', '<', '<=', '>', '>=', '==', '!='):
+                    continue
+                if nd['k'] == 'un' and nd['op'] in ('!', '-'):
+                    continue
+                ok = False
+                break
+            if ok:
+                out = e
+    G._predbody = out
+    return out
 
 
 def eq_summary(P, gk):
@@ -682,7 +802,7 @@ class Analyzer:
             # a named sum over a set-up structure whose total the unpacker has bounded (k4dec): same operand, same range
             iv, bexp, extra = self.ind[chain[0]]
             i0 = (self.loop_entry.get(chain[0]) or {}).get(f'v{iv}')
-            qk = (self.F.s(inc, names=False) if inc else '1', self.F.s(bexp, names=False))
+            qk = (self.canon_named(inc) if inc else '1', self.canon_named(bexp))
             q = self.sumq.get(qk)
             if q is not None and i0 is not None and i0.lo >= 0 and extra == 0 and ent[f'v{vid}'].hi + q < bound \
                     and sum(1 for x in self.acc_info.values() if x[0] == vid and x[2] == hout) == 1:
@@ -691,6 +811,51 @@ class Analyzer:
         self.lemmas_used.add('accumulator')
         return (old.copy(hi=min(old.hi, bound - c)) if old.hi > bound - c else old,
                 new.copy(hi=min(new.hi, bound)) if new.hi > bound else new)
+
+    def canon_named(self, e, depth=0):
+        """canonical text of an expression for cross-function matching: locals anonymous, fields by name; a pointer
+        local that stands for a path (`int *cls=info->partitionclass`) and an integer local that is a single copy of a
+        field (`const int parts=info->partitions`) print as what they stand for"""
+        F = self.F
+        n = F.ex.get(e)
+        if n is None:
+            return '?'
+        k = n['k']
+        c = n.get('c', [])
+        if k == 'ref' and n['decl'].get('kind') in ('var', 'param') and depth < 4:
+            vid = n['decl'].get('id')
+            if vid in self.alias:
+                return self.canon_named(F.strip_casts(self.alias[vid]), depth + 1)
+            if not hasattr(self, '_copydefs'):
+                from rules import common as _c
+                self._copydefs = _c.single_defs(F)
+            d = self._copydefs.get(vid)
+            if d is not None and F.ex[F.strip_casts(d)]['k'] == 'member' and int_type_range(n.get('t', '') or ''):
+                return self.canon_named(F.strip_casts(d), depth + 1)
+            # ... or that is stored, unmodified, into one field (`parts=read(); info->partitions=parts;`)
+            if d is not None:
+                if not hasattr(self, '_storedto'):
+                    st = {}
+                    for q in F.pos:
+                        qn = F.ex[q]
+                        if qn['k'] == 'assign' and qn['op'] == '=':
+                            l, r = F.ex[F.strip_casts(qn['c'][0])], F.ex[F.strip_casts(qn['c'][1])]
+                            if l['k'] == 'member' and r['k'] == 'ref' and r['decl'].get('kind') == 'var':
+                                st.setdefault(r['decl']['id'], []).append(F.strip_casts(qn['c'][0]))
+                    self._storedto = st
+                tg = self._storedto.get(vid) or []
+                if len(tg) == 1:
+                    return self.canon_named(tg[0], depth + 1)
+            return '$'
+        if k == 'member':
+            return self.canon_named(c[0], depth) + ('->' if n['arrow'] else '.') + n['field']
+        if k == 'sub':
+            return f'{self.canon_named(c[0], depth)}[{self.canon_named(c[1], depth)}]'
+        if k in ('bin', 'assign'):
+            return f'({self.canon_named(c[0], depth)}{n["op"]}{self.canon_named(c[1], depth)})'
+        if k == 'cast':
+            return self.canon_named(c[0], depth) if not n.get('explicit') else f'({n["t"]}){self.canon_named(c[0], depth)}'
+        return F.s(e, names=False)
 
     # -- access paths -----------------------------------------------------------------------------
     def path(self, e, env=None):
@@ -780,9 +945,15 @@ class Analyzer:
         """(record, field, is_elem) of an lvalue whose last step is a member access (through subscripts)"""
         nd = self.ex[self.F.strip_casts(e)]
         elem = False
-        while nd['k'] == 'sub':
-            elem = True
-            nd = self.ex[self.F.strip_casts(nd['c'][0])]
+        for _ in range(8):
+            while nd['k'] == 'sub':
+                elem = True
+                nd = self.ex[self.F.strip_casts(nd['c'][0])]
+            # a pointer local that stands for a path (`const char *lens=s->lengthlist; lens[i]`)
+            if nd['k'] == 'ref' and nd['decl'].get('id') in getattr(self, 'alias', {}):
+                nd = self.ex[self.F.strip_casts(self.alias[nd['decl']['id']])]
+                continue
+            break
         if nd['k'] == 'member' and 'record' in nd:
             return (nd['record'], nd['field'], elem)
         return None
@@ -1394,6 +1565,9 @@ class Analyzer:
         r = self.lib_call(env, e, name, args, avals)
         if r is not None:
             return r
+        r = self._pure_scalar_call(e, name, avals)
+        if r is not None:
+            return r
         # internal call: memory reachable from the pointer arguments the callee may write through (K3 summary) is
         # forgotten; unknown callee: all pointer arguments
         wr = None
@@ -1438,6 +1612,49 @@ class Analyzer:
         tr = int_type_range(nd.get('t', ''))
         return V(*tr) if tr else TOP
 
+    def _pure_scalar_call(self, e, name, avals):
+        """a small helper over scalars only (`static double clamp(double v,double lo,double hi)`): no store outside its
+        locals, no call; evaluated for the argument values at this site (memoised)"""
+        if not name:
+            return None
+        G = self.P.get(name, self.F)
+        if G is None or G.entry is None or G is self.F or len(G.ex) > 120 or not G.params or len(avals) != len(G.params):
+            return None
+        ok = getattr(G, '_purescalar', None)
+        if ok is None:
+            ok = all(p['t'].strip() in ('float', 'double', 'const double', 'const float') or int_type_range(p['t']) for p in G.params)
+            rt = G.d.get('ret_t', '').strip()
+            ok = ok and (rt in ('float', 'double') or bool(int_type_range(rt)))
+            if ok:
+                for nd in G.ex.values():
+                    if nd['k'] == 'call' or nd['k'] in ('member', 'sub') or (nd['k'] == 'un' and nd['op'] in ('*', '&')):
+                        ok = False
+                        break
+                    if nd['k'] == 'ref' and nd['decl'].get('kind') not in ('var', 'param'):
+                        ok = False
+                        break
+            G._purescalar = ok
+        if not ok:
+            return None
+        memo = self.P.__dict__.setdefault('_purescalar_memo', {})
+        mk = (self.P.key(G), tuple((a.lo, a.hi) for a in avals))
+        if mk in memo:
+            return memo[mk]
+        memo[mk] = None
+        pi = {p['name']: V(a.lo, a.hi) for p, a in zip(G.params, avals)}
+        try:
+            A = Analyzer(self.P, G, param_init=pi)
+            A.run()
+        except Exception:
+            return None
+        r = None
+        for (_, _, v) in A.ret_states:
+            if v is None:
+                return None
+            r = join(r, V(v.lo, v.hi))
+        memo[mk] = r
+        return r
+
     def _written_fields(self, tg, i):
         """names of the struct fields the callees may store to in the object behind their parameter i (K3 summaries), or
         None when a store through that parameter has no field (array/scalar pointee, unknown)"""
@@ -1452,7 +1669,13 @@ class Analyzer:
             for (o, rec, fld) in sm['stores']:
                 if o[0] == 'P' and o[1] == i:
                     if fld is None:
-                        return None
+                        # a store the effect analysis could not attribute to a field (through a pointer into an embedded
+                        # array, `int *sub=info->class_subbook[j]; sub[k]=..`): attribute it syntactically if possible
+                        syn = _syntactic_written_fields(self.P, t, i)
+                        if syn is None:
+                            return None
+                        out |= syn
+                        continue
                     out.add(fld)
             for o in sm['frees']:
                 if o[0] == 'P' and o[1] == i:
@@ -1615,6 +1838,17 @@ class Analyzer:
         if k == 'assign':
             v = self.peek(env, nd['c'][0])
             return self._truth(env, nd['c'][0], v, truth)
+        if k == 'call' and 'd' in nd['callee']:
+            G = self.P.get(nd['callee']['d'], self.F)
+            pe = _predicate_body(G) if G is not None else None
+            if pe is not None:
+                # a range predicate kept in a helper (`static int out_of_range(int v,int lo,int hi){return v<lo||v>=hi;}`):
+                # its outcome refines the arguments exactly as the spelled-out test would
+                amap = {p_['id']: a_ for p_, a_ in zip(G.params, nd.get('c', []))}
+                r = self._refine_pred(env, G, pe, amap, truth)
+                if r is None:
+                    return None
+                env = r
         if k == 'call' or k == 'cond':
             tmp = env.get('$tmp') or {}
             v = tmp.get(c)
@@ -1628,6 +1862,73 @@ class Analyzer:
             return env
         v = self.peek(env, c)
         return self._truth(env, c, v, truth)
+
+    def _refine_pred(self, env, G, e, amap, truth):
+        """env refined by the helper's return expression e (over its parameters and constants) being `truth`"""
+        nd = G.ex[e]
+        k = nd['k']
+        if k == 'cast':
+            return self._refine_pred(env, G, nd['c'][0], amap, truth)
+        if k == 'un' and nd['op'] == '!':
+            return self._refine_pred(env, G, nd['c'][0], amap, not truth)
+        if k == 'bin' and nd['op'] in ('&&', '||'):
+            a, b = nd['c']
+            if (nd['op'] == '&&') == truth:
+                e1 = self._refine_pred(env, G, a, amap, truth)
+                return None if e1 is None else self._refine_pred(e1, G, b, amap, truth)
+            ea = self._refine_pred(env.copy(), G, a, amap, truth)
+            eb0 = self._refine_pred(env.copy(), G, a, amap, not truth)
+            eb = None if eb0 is None else self._refine_pred(eb0, G, b, amap, truth)
+            if ea is None:
+                return eb
+            if eb is None:
+                return ea
+            return self.join_env(ea, eb)
+        if k == 'cond':
+            # c ? x : y with constant arms (`return(y<0?0:y>255?255:y)` is not a predicate; only 0/1 arms are)
+            return env
+        if k == 'bin' and nd['op'] in ('<', '<=', '>', '>=', '==', '!='):
+            op = nd['op']
+            if not truth:
+                op = {'<': '>=', '<=': '>', '>': '<=', '>=': '<', '==': '!=', '!=': '=='}[op]
+
+            def side(x):
+                xn = G.ex[G.strip_casts(x)]
+                if xn['k'] == 'int':
+                    return K(xn['v']), None, None
+                if xn['k'] == 'un' and xn['op'] == '-' and G.ex[G.strip_casts(xn['c'][0])]['k'] == 'int':
+                    return K(-G.ex[G.strip_casts(xn['c'][0])]['v']), None, None
+                if xn['k'] == 'ref' and xn['decl'].get('id') in amap:
+                    ae = amap[xn['decl']['id']]
+                    tmp = env.get('$tmp') or {}
+                    v = tmp.get(ae) if ae in tmp else self.peek(env, ae)
+                    r_ = int_type_range(G.vars.get(xn['decl']['id'], {}).get('t', '') or xn.get('t', ''))
+                    return (self.convert(v, r_) if r_ else v), ae, self.sym_of(ae, env)
+                return None, None, None
+            va, ea_, sa = side(nd['c'][0])
+            vb, eb_, sb = side(nd['c'][1])
+            if va is None or vb is None:
+                return env
+            if self.sym_contradiction(va, sa, op, vb, sb):
+                return None
+            na = self.restrict(va, op, vb, sb)
+            nb = self.restrict(vb, {'<': '>', '<=': '>=', '>': '<', '>=': '<=', '==': '==', '!=': '!='}[op], va, sa)
+            if na.is_bottom() or nb.is_bottom():
+                return None
+            if op in ('<', '<=') and eb_ is not None:
+                extra = self._eq_syms(env, eb_)
+                if extra:
+                    na = na.copy(lt=na.lt | extra) if op == '<' else na.copy(le=(na.le | extra) - na.lt)
+            if op in ('>', '>=') and ea_ is not None:
+                extra = self._eq_syms(env, ea_)
+                if extra:
+                    nb = nb.copy(lt=nb.lt | extra) if op == '>' else nb.copy(le=(nb.le | extra) - nb.lt)
+            if ea_ is not None:
+                self.assign_refined(env, ea_, va, na)
+            if eb_ is not None:
+                self.assign_refined(env, eb_, vb, nb)
+            return env
+        return env
 
     def _truth(self, env, e, v, truth):
         if truth:
@@ -1838,6 +2139,11 @@ class Analyzer:
                     ne = ne | {c}
         elif op == '==' and w.const() is not None and w.const() in v.ne:
             lo, hi = 1, 0
+        # an excluded constant at the edge of the interval moves the edge
+        while lo in ne and lo < hi:
+            lo += 1
+        while hi in ne and hi > lo:
+            hi -= 1
         nv = v.copy(lo=lo, hi=hi, lt=frozenset(lt), le=frozenset(le) - frozenset(lt), ne=frozenset(x for x in ne if lo <= x <= hi))
         if v.nn is None and op == '!=' and w.const() == 0:
             nv.nn = True
@@ -1956,8 +2262,18 @@ class Analyzer:
             if '.' in sym:
                 r, fl = sym.split('.', 1)
                 fi = self.field_inv.get((r, fl, False))
-                if fi is not None:
-                    return fi.lo
+                lo = fi.lo if fi is not None else None
+                # what this path knows about the field itself (`if(vi->channels<=0)goto err;`, or the same test on a
+                # local copy, which refines the field through the equality alias): all locations of that field class
+                here = None
+                for k_, x in env.items():
+                    if isinstance(k_, str) and isinstance(x, V) and k_.endswith(fl) and '[' not in k_:
+                        info = self.keyinfo.get(k_)
+                        if info and info[0] and info[0][0] == r and info[0][1] == fl and not info[0][2]:
+                            here = x.lo if here is None else min(here, x.lo)
+                if here is not None and (lo is None or here > lo):
+                    lo = here
+                return lo
             return None
         return f
 
